@@ -12,7 +12,7 @@ from sa.props._lib_d import (call_nodes, calls_with, const_value_is, implied, lo
                              reach_under, self_assigns, slice_parts, succ_of, test_value, value_returned)
 from sa.props._lib_d import must_pass_under as _must_pass_under
 from sa.props._lib_d import Views
-from sa.props._lib_d import MiniVM, VMError, VMRaise, VMStub, _NativeRaise, resolve_locals
+from sa.props._lib_d import MiniVM, VMError, VMRaise, VMStub, _NativeRaise, facts_at, resolve_locals
 from sa.source import AnalysisError
 
 PROPERTY = "C16"
@@ -78,6 +78,8 @@ RULE_KINDS = {
     "intn/pause-honoured/evaluated": "bounded",
     "netstring/digit-precheck": "bounded", "netstring/length-syntax": "bounded", "netstring/writer-format": "bounded", "netstring/payload-without-comma": "bounded",
     "netstring/length-value": "bounded",
+    # _extractPayload evaluated along its CFG on representative contents for each outcome of _payloadComplete() (plus the segmentation runs)
+    "netstring/payload-split": "bounded",
     # def-use on the CFG: a local derived from another local is not used after that local was re-bound without being recomputed
     "stale/": "structural",
 }
@@ -318,13 +320,25 @@ def _line_receiver(ctx):
                   witness=g.describe(w))
     for n, call in raw_cb:
         a = call.args[0] if call.args else None
-        cap = [x.id for x in g.nodes if x.kind == "stmt" and g.reachable(x.id) and isinstance(x.ast, ast.Assign) and a is not None
-               and any(src(t) == src(a) for t in x.ast.targets) and src(x.ast.value) == "self._buffer"]
+        cap = []
+        for x in g.nodes:
+            if x.kind == "stmt" and g.reachable(x.id) and isinstance(x.ast, ast.Assign) and a is not None:
+                for t in x.ast.targets:
+                    if src(t) == src(a) and src(x.ast.value) == "self._buffer":
+                        cap.append(x.id)
+                    elif isinstance(t, (ast.Tuple, ast.List)) and isinstance(x.ast.value, (ast.Tuple, ast.List)) and len(t.elts) == len(x.ast.value.elts):
+                        if any(src(te) == src(a) and src(ve) == "self._buffer" for te, ve in zip(t.elts, x.ast.value.elts)):
+                            cap.append(x.id)
+        if not cap:
+            # anchor not recognised: no verdict from this rule (the raw-mode / setLineMode(extra) segmentation runs cover the clause)
+            ctx.note("line/raw-swap-before-callout: the statement that captures _buffer for rawDataReceived was not recognised; clause left to "
+                     "line/segmentation-invariant (raw mode switch and setLineMode(extra))")
+            continue
         w1 = g.must_precede(cap, [n])
-        ctx.check(bool(cap) and w1 is None, "line/raw-swap-before-callout", ctx.construct(q, call),
+        ctx.check(w1 is None, "line/raw-swap-before-callout", ctx.construct(q, call),
                   "rawDataReceived is not given the bytes captured from _buffer", witness=g.describe(w1))
         for cp in cap:
-            w = g.must_pass([cp], clears, to=[n])
+            w = None if cp in clears else g.must_pass([cp], clears, to=[n])
             ctx.check(w is None, "line/raw-swap-before-callout", ctx.construct(q, call) + " | cleared",
                       "_buffer is not emptied before rawDataReceived runs: data pushed back by setLineMode(extra) inside the call-out is "
                       "lost or the delivered bytes are delivered again", witness=g.describe(w))
@@ -332,8 +346,7 @@ def _line_receiver(ctx):
             back = g.path([n], clears, strict=True, avoid=[cp] + wheads, edge_ok=lambda a_, b_, l: l != "exc")
             ctx.check(back is None, "line/raw-swap-before-callout", ctx.construct(q, call) + " | not after",
                       "_buffer is emptied after the rawDataReceived call-out (data pushed back by setLineMode(extra) is discarded)", witness=g.describe(back))
-    with ctx.section("_PauseableMixin"):
-        # mixin: pause / resume
+    # mixin: pause / resume
         f2 = _F(ctx, B, "_PauseableMixin.resumeProducing")
         g2 = ctx.cfg(f2)
         q2 = Q + "_PauseableMixin.resumeProducing"
@@ -681,57 +694,46 @@ def _netstring(ctx):
         ctx.need(len(rp) == 1, "single return in _payloadComplete")
         tbl = []
         for r_, c_, e_, want in ((4, 3, 7, True), (3, 3, 7, False), (9, 3, 7, True), (0, 7, 7, True), (1, 0, 2, False)):
-            v = test_value(rp[0].value, {"len(self._remainingData)": r_, "self._currentPayloadSize": c_, "self._expectedPayloadSize": e_})
+            v = test_value(resolve_locals(fp, rp[0].value), {"len(self._remainingData)": r_, "self._currentPayloadSize": c_, "self._expectedPayloadSize": e_})
             if v is not want:
                 tbl.append((r_, c_, e_, v))
         ctx.check(not tbl, "netstring/payload-complete-boundary", Q + "NetstringReceiver._payloadComplete",
                   f"_payloadComplete is not 'buffered + already consumed >= expected' (remaining, current, expected, result): {tbl[:2]}")
     with ctx.section("netstring _extractPayload"):
-        # ---- ns extractPayload
+        # The (loop-free) function is evaluated along its CFG for both outcomes of _payloadComplete() on concrete contents, and only its effects are
+        # compared: the bytes appended to the payload, what stays in _remainingData, the size counter.  No statement shape is assumed (two branches
+        # each doing the write, or a common tail driven by a count, are the same).
         fx = _F(ctx, B, "NetstringReceiver._extractPayload")
         gx = ctx.cfg(fx)
         qx = Q + "NetstringReceiver._extractPayload"
         wr = calls_with(gx, "self._payload.write")
         ctx.need(wr, "self._payload.write in _extractPayload")
-        for complete in (True, False):
-            facts = {"self._payloadComplete()": complete, "self._expectedPayloadSize": 10, "self._currentPayloadSize": 3}
-            R = reach_under(gx, facts)
-            here = [(n, c) for n, c in wr if n in R]
-            c0 = qx + (" | <payload completes>" if complete else " | <payload still incomplete>")
-            ctx.check(len(here) == 1, "netstring/payload-split", c0, f"{len(here)} payload writes on this branch (exactly one)")
-            for n, call in here:
-                a = local_def(fx, call.args[0]) if call.args else None
-                rem_assign = [x for x in self_assigns(gx, "_remainingData") if x in R]
-                cur_assign = [x.id for x in gx.nodes if x.kind == "stmt" and x.id in R and isinstance(x.ast, (ast.Assign, ast.AugAssign))
-                              and src(x.ast.targets[0] if isinstance(x.ast, ast.Assign) else x.ast.target) == "self._currentPayloadSize"]
-                if complete:
-                    spx = slice_parts(a) if a is not None else None
-                    ok = bool(spx) and src(spx[0]) == "self._remainingData" and spx[1] is None and spx[2] is not None
-                    width = None
-                    if ok:
-                        try:
-                            width = peval(local_def(fx, spx[2]), facts)
-                        except NotConst:
-                            width = None
-                    ctx.check(ok and width == 7, "netstring/payload-split", ctx.construct(qx, call),
-                              "when the payload completes, the bytes appended are not exactly the missing 'expected - current' bytes "
-                              "(bytes of the next netstring are swallowed or payload bytes are left behind when the payload arrives in pieces)")
-                    ok2 = False
-                    for x in rem_assign:
-                        s2 = slice_parts(gx.node(x).ast.value)
-                        if s2 and src(s2[0]) == "self._remainingData" and s2[2] is None and s2[1] is not None and spx and src(s2[1]) == src(spx[2]):
-                            ok2 = True
-                    ctx.check(ok2, "netstring/payload-split", ctx.construct(qx, call) + " | rest", "the bytes after the payload are not kept as _remainingData")
-                    ok3 = any(isinstance(gx.node(x).ast, ast.Assign) and src(gx.node(x).ast.value) == "self._expectedPayloadSize" for x in cur_assign)
-                    ctx.check(ok3, "netstring/payload-split", ctx.construct(qx, call) + " | size", "_currentPayloadSize is not brought to the expected size")
-                else:
-                    ctx.check(a is not None and src(a) == "self._remainingData", "netstring/payload-split", ctx.construct(qx, call),
-                              "an incomplete payload segment is not appended whole")
-                    ok2 = any(const_value_is(gx.node(x).ast.value, lambda v: v == b"") for x in rem_assign)
-                    ok3 = any(isinstance(gx.node(x).ast, ast.AugAssign) and isinstance(gx.node(x).ast.op, ast.Add) and src(gx.node(x).ast.value) == "len(self._remainingData)"
-                              and g_before(gx, x, rem_assign) for x in cur_assign)
-                    ctx.check(ok2 and ok3, "netstring/payload-split", ctx.construct(qx, call) + " | bookkeeping",
-                              "after buffering an incomplete segment the size counter is not advanced by its length before _remainingData is emptied")
+        for complete, remaining, lab in ((True, b"0123456789abcd", "payload completes, 7 of 14 buffered bytes are missing"),
+                                         (True, b"0123456", "payload completes exactly"), (False, b"0123", "payload still incomplete")):
+            facts = {"self._payloadComplete()": complete, "self._expectedPayloadSize": 10, "self._currentPayloadSize": 3, "self._remainingData": remaining,
+                     "len(self._remainingData)": len(remaining)}
+            c0 = qx + f" | <{lab}>"
+            want_written = remaining[:7] if complete else remaining
+            want_rest = remaining[7:] if complete else b""
+            want_size = 10 if complete else 3 + len(remaining)
+            written = []
+            for n, call in wr:
+                for f_ in facts_at(gx, facts, [n]):
+                    try:
+                        written.append(peval(call.args[0], f_))
+                    except NotConst:
+                        written.append("<not determined>")
+            ends = facts_at(gx, facts, [gx.exit])
+            rests = sorted({repr(e_.get("self._remainingData", "<not determined>")) for e_ in ends})
+            sizes = sorted({repr(e_.get("self._currentPayloadSize", "<not determined>")) for e_ in ends})
+            if "<not determined>" in written or any("not determined" in x for x in rests + sizes) or not ends:
+                ctx.note(f"netstring/payload-split: effects of _extractPayload not determined by evaluation ({lab}); clause left to netstring/segmentation-invariant")
+                continue
+            ctx.check(written == [want_written], "netstring/payload-split", c0,
+                      f"the bytes appended to the payload are {written!r}, not exactly the missing 'expected - current' bytes {want_written!r} "
+                      "(bytes of the next netstring are swallowed or payload bytes are left behind when the payload arrives in pieces)")
+            ctx.check(rests == [repr(want_rest)], "netstring/payload-split", c0 + " | rest", f"_remainingData afterwards is {rests}, expected {want_rest!r}")
+            ctx.check(sizes == [repr(want_size)], "netstring/payload-split", c0 + " | size", f"_currentPayloadSize afterwards is {sizes}, expected {want_size}")
     with ctx.section("netstring _consumePayload"):
         # ---- ns consumePayload
         fcp = _F(ctx, B, "NetstringReceiver._consumePayload")
@@ -778,11 +780,19 @@ def _netstring(ctx):
     with ctx.section("netstring _processLength"):
         # ---- ns processLength
         fpl = _F(ctx, B, "NetstringReceiver._processLength")
-        okl = any(isinstance(x, ast.Assign) and src(x.targets[0]) == "self._expectedPayloadSize" and isinstance(x.value, ast.BinOp) and isinstance(x.value.op, ast.Add)
-                  and ((call_name(x.value.left) == "self._extractLength" and const_value_is(x.value.right, lambda v: v == 1))
-                       or (call_name(x.value.right) == "self._extractLength" and const_value_is(x.value.left, lambda v: v == 1)))
-                  for x in walk_local(fpl))
-        ctx.check(okl, "netstring/expected-size", Q + "NetstringReceiver._processLength", "the expected payload size is not 'announced length + 1' (payload and comma)")
+        sets = [resolve_locals(fpl, x.value) for x in walk_local(fpl) if isinstance(x, ast.Assign) and src(x.targets[0]) == "self._expectedPayloadSize"]
+        if not sets:
+            ctx.note("netstring/expected-size: no assignment of _expectedPayloadSize recognised in _processLength; clause left to netstring/segmentation-invariant")
+        for v in sets:
+            calls_ = [c for c in ast.walk(v) if isinstance(c, ast.Call) and call_name(c) == "self._extractLength"]
+            val = None
+            if len(calls_) == 1:
+                try:
+                    val = peval(v, {src(calls_[0]): 41})
+                except NotConst:
+                    val = None
+            ctx.check(val == 42, "netstring/expected-size", Q + "NetstringReceiver._processLength",
+                      "the expected payload size is not 'announced length + 1' (payload and comma)" + (f": evaluates to {val} for an announced length of 41" if val is not None else ""))
     with ctx.section("netstring dataReceived"):
         # dataReceived: errors close, incomplete waits
         fd = _F(ctx, B, "NetstringReceiver.dataReceived")
@@ -1273,6 +1283,20 @@ MUTANTS = [
     Mutant("int16-signed-format", B, "    structFormat = \"!H\"\n", "    structFormat = \"!h\"\n", expect_rule="intn/prefix-table"),
     Mutant("intn-offset-not-advanced", B, "            currentOffset = messageEnd\n            self._compatibilityOffset = currentOffset\n            self.stringReceived(packet)\n",
            "            self._compatibilityOffset = messageEnd\n            self.stringReceived(packet)\n            currentOffset = messageEnd\n", expect_rule="intn/offset-advanced-before-callout"),
+    Mutant("netstring-expected-size-through-temporary-forgets-the-comma", B, "        self._expectedPayloadSize = self._extractLength(lengthString) + 1\n",
+           "        announced = self._extractLength(lengthString)\n        self._expectedPayloadSize = announced\n", expect_rule="netstring/expected-size"),
+    Mutant("line-raw-helper-hands-over-without-clearing", B, "                    data = self._buffer\n                    self._buffer = b\"\"\n                    why = self.rawDataReceived(data)\n",
+           "                    why = self._handRawOver()\n                    self._buffer = b\"\"\n",
+           more=[(B, "    def setLineMode(self, extra=b\"\"):", "    def _handRawOver(self):\n        held = self._buffer\n        return self.rawDataReceived(held)\n\n    def setLineMode(self, extra=b\"\"):")],
+           expect_rule="line/raw-swap-before-callout"),
+    Mutant("netstring-common-tail-count-ignores-consumed", B,
+           "        if self._payloadComplete():\n            remainingPayloadSize = self._expectedPayloadSize - self._currentPayloadSize\n            self._payload.write(self._remainingData[:remainingPayloadSize])\n"
+           "            self._remainingData = self._remainingData[remainingPayloadSize:]\n            self._currentPayloadSize = self._expectedPayloadSize\n        else:\n"
+           "            self._payload.write(self._remainingData)\n            self._currentPayloadSize += len(self._remainingData)\n            self._remainingData = b\"\"\n",
+           "        held = self._remainingData\n        if self._payloadComplete():\n            count = self._expectedPayloadSize\n        else:\n            count = len(held)\n"
+           "        self._payload.write(held[:count])\n        self._remainingData = held[count:]\n        self._currentPayloadSize += count\n", expect_rule="netstring/payload-split"),
+    Mutant("netstring-payload-complete-through-temporary-strict", B, "        return (\n            len(self._remainingData) + self._currentPayloadSize\n            >= self._expectedPayloadSize\n        )",
+           "        got = self._currentPayloadSize + len(self._remainingData)\n        return not got <= self._expectedPayloadSize", expect_rule="netstring/payload-complete-boundary"),
     Mutant("netstring-limit-ge", B, "        if length > self.MAX_LENGTH:\n            raise NetstringParseError(self._TOO_LONG % (self.MAX_LENGTH,))\n        return length",
            "        if length >= self.MAX_LENGTH:\n            raise NetstringParseError(self._TOO_LONG % (self.MAX_LENGTH,))\n        return length", expect_rule="netstring/limit-boundary"),
     Mutant("netstring-digit-precheck-too-tight", B, "        return math.ceil(math.log10(self.MAX_LENGTH)) + 1", "        return math.ceil(math.log10(self.MAX_LENGTH))",
@@ -1367,5 +1391,18 @@ SILENT = [
                  (B, "                alldata = self.__dict__.pop(\"recvd\")\n", "                alldata = self.__dict__.pop(\"recvd\")\n                available = len(alldata)\n"),
                  (B, "                alldata = self._unprocessed\n                currentOffset = self._compatibilityOffset\n",
                   "                alldata = self._unprocessed\n                available = len(alldata)\n                currentOffset = self._compatibilityOffset\n")]),
+    Silent("line-raw-delivery-in-helper-with-tuple-swap", B, "                    data = self._buffer\n                    self._buffer = b\"\"\n                    why = self.rawDataReceived(data)\n",
+           "                    why = self._handRawOver()\n",
+           more=[(B, "    def setLineMode(self, extra=b\"\"):", "    def _handRawOver(self):\n        held, self._buffer = self._buffer, b\"\"\n        return self.rawDataReceived(held)\n\n    def setLineMode(self, extra=b\"\"):")]),
+    Silent("netstring-extract-payload-common-tail", B,
+           "        if self._payloadComplete():\n            remainingPayloadSize = self._expectedPayloadSize - self._currentPayloadSize\n            self._payload.write(self._remainingData[:remainingPayloadSize])\n"
+           "            self._remainingData = self._remainingData[remainingPayloadSize:]\n            self._currentPayloadSize = self._expectedPayloadSize\n        else:\n"
+           "            self._payload.write(self._remainingData)\n            self._currentPayloadSize += len(self._remainingData)\n            self._remainingData = b\"\"\n",
+           "        held = self._remainingData\n        if self._payloadComplete():\n            count = self._expectedPayloadSize - self._currentPayloadSize\n        else:\n            count = len(held)\n"
+           "        self._payload.write(held[:count])\n        self._remainingData = held[count:]\n        self._currentPayloadSize += count\n"),
+    Silent("netstring-sizes-through-temporaries", B, "        self._expectedPayloadSize = self._extractLength(lengthString) + 1\n",
+           "        announced = self._extractLength(lengthString)\n        self._expectedPayloadSize = 1 + announced\n",
+           more=[(B, "        return (\n            len(self._remainingData) + self._currentPayloadSize\n            >= self._expectedPayloadSize\n        )",
+                  "        got = self._currentPayloadSize + len(self._remainingData)\n        return not got < self._expectedPayloadSize")]),
     Silent("netstring-buffer-append-spelled-out", B, "        self._remainingData += data\n        while self._remainingData:", "        self._remainingData = self._remainingData + data\n        while self._remainingData:"),
 ]
